@@ -71,6 +71,17 @@ def check_c06(tier, replay=None):
     pid = 'C06'
     V = Verdict(pid, tier)
     rng = random.Random(seed())
+    if replay and json.load(open(replay))['replay'].get('level') == 'task':
+        import swarm_checks, swarm_trace
+        r = json.load(open(replay))['replay']
+        S = [swarm_trace.Scenario(r['scenario'])]
+        raw = swarm_trace.run_scenarios(pid, S)
+        bad = [m for p, m in swarm_checks.oracles(S[0], raw[0])[0] if p == pid]
+        log('replay (task level) => %s' % bad)
+        if bad:
+            print('VIOLATION property=%s replay=%s' % (pid, replay))
+            return 1
+        return 0
     if replay:
         r = json.load(open(replay))['replay']
         o = run_mbt([r['case']])[0]
@@ -142,8 +153,11 @@ def check_c06(tier, replay=None):
                         {'case': c, 'expect': None, 'observed': o, 'oneshot': ref}, None)
         else:
             seg_ok += 1
+    import swarm_checks
+    task = swarm_checks.c06_task_level(V, tier, rng)
     cov = {
-        'states': states, 'transitions': transitions, 'traces_validated_against_impl': agree + seg_ok,
+        'states': states, 'transitions': transitions, 'traces_validated_against_impl': agree + seg_ok + task['task_level_traces_accepted'],
+        'task_level': task,
         'samples': [{'case': c, 'expected': {'delivered': [msg2desc(m) for m in e['delivered']], 'dead': e['dead'], 'buffered': len(e['buf'])}}
                     for c, e in list(zip(cases, exps))[:: max(1, len(cases) // 5)]][:5],
         'exhaustive': True, 'evaluations': len(cases) + len(allsplit), 'transition_tests': n_tr,
